@@ -224,7 +224,12 @@ async fn one_round(ctx: &Ctx, out: &mut Outcome, rng: &mut Rng, idx: u64, root: 
     } else {
         store.clone()
     };
-    let mut ing = Ingester::new(cfg, ing_store, meta.clone(), crate::checks::c01::storage_config(), MetricSchema::default_metrics());
+    // (every seventh round under an empty tenant prefix: chunk paths with a leading slash)
+    let mut sc = crate::checks::c01::storage_config();
+    if idx % 7 == 3 {
+        sc.tenant_id = String::new();
+    }
+    let mut ing = Ingester::new(cfg, ing_store, meta.clone(), sc, MetricSchema::default_metrics());
     if wal_on {
         if let Err(e) = ing.ensure_wal().await {
             out.inconclusive(&format!("round {idx}: ensure_wal: {e}"));
